@@ -289,6 +289,7 @@ class CallMixin:
             "kwargs": {k: (self.to_val(v) if not (v.k == "py" and not isinstance(v.r, (PyFunc, PyClass, list, tuple))) else None) for k, v in kwargs.items() if k != "**"},
             "heap_before": self.heap,
             "line": getattr(n, "lineno", 0),
+            "star": self.to_val(kwargs["**"]) if "**" in kwargs else None,
             "preserves": tuple(ext.preserves) + tuple(getattr(self.unit, "ext_preserves", ()) if self.unit else ()),
         }
         protect = []
